@@ -2,6 +2,7 @@
 import json, os
 from .core import *
 from .queues import *
+from .chan import *
 
 ALL_ORIGINS8 = list(range(8))
 
@@ -281,4 +282,52 @@ def C15(c):
     c.assumptions.append("the L1 oracle has no counters, so acceptance of the same history from every origin *is* origin independence; single-thread histories are additionally compared result by result with origin 0 (incl. reported lengths, panics)")
 
 
-CHECKS = {"C02": C02, "C13": C13, "C18": C18, "C15": C15}
+def uni_workload(kind, s_streams, variant):
+    """producers x entry points against `s_streams` driven consumers; the buffer (N=2) fills and drains inside the run"""
+    resv = kind in UNI_RESERVE
+    p0 = [S(11), SW(12), S(13)]
+    p1 = [SA(21, 1), SW(22, False)] + ([RSV, FILL(23), SENDR] if resv else [S(23)])
+    if variant == 1:
+        p0 = [SW(11), SA(12, 2), S(13)]
+        p1 = ([RSV, FILL(21), SENDR] if resv else [SA(21, 0)]) + [SIC(22), SWIC(23)]
+    cons = [[DRIVE(i)] for i in range(s_streams)]
+    return [p0, p1] + cons
+
+
+def C01(c):
+    quick = c.tier == "quick"
+    checks = ["InvDeliveredAtMostOnce", "InvNoLossNoInvention", "InvRejectedSetterUninvoked", "NoPanic"]
+    mr, rr = (150, 100) if quick else (3000, 2000)
+    for kind in UNI_KINDS:
+        scns = []
+        for n, s_ in ((2, 1), (2, 2)) + (() if quick else ((4, 1), (4, 2))):
+            for variant in (0, 1):
+                th = uni_workload(kind, s_, variant)
+                scns.append(cscn("%s_n%ds%d_v%d_dfs" % (kind, n, s_, variant), kind, n, s_, th, dfs(2, mr), pre_streams=s_))
+                scns.append(cscn("%s_n%ds%d_v%d_rnd" % (kind, n, s_, variant), kind, n, s_, th, rnd(rr, c.seed * 100 + variant + n), pre_streams=s_))
+        conform_chan(c, kind, scns, "Trace_AbsUni", uni_consts(2, 4, kind, checks))
+
+
+def by_n(scns):
+    g = {}
+    for s in scns:
+        g.setdefault(s["n"], []).append(s)
+    return sorted(g.items())
+
+
+def C04(c):
+    quick = c.tier == "quick"
+    checks = ["InvNoLostWakeup"]
+    mr, rr = (200, 150) if quick else (3000, 2000)
+    for kind in UNI_KINDS:
+        scns = []
+        for n, s_ in ((2, 1), (2, 2), (4, 1), (4, 2)):
+            for variant in (0, 1):
+                th = uni_workload(kind, s_, variant)
+                scns.append(cscn("%s_n%ds%d_v%d_dfs" % (kind, n, s_, variant), kind, n, s_, th, dfs(2, mr), pre_streams=s_))
+                scns.append(cscn("%s_n%ds%d_v%d_rnd" % (kind, n, s_, variant), kind, n, s_, th, rnd(rr, c.seed * 100 + variant + n), pre_streams=s_))
+        for n, group in by_n(scns):
+            conform_chan(c, "%s_n%d" % (kind, n), group, "Trace_AbsUni", uni_consts(n, 4, kind, checks))
+
+
+CHECKS = {"C04": C04, "C02": C02, "C13": C13, "C18": C18, "C15": C15, "C01": C01}
